@@ -127,7 +127,7 @@ func init() {
 					}
 					var posArg ssa.Value
 					switch {
-					case cal.Name() == "NewRunError" && len(call.Call.Args) == 3:
+					case fnName(cal) == "NewRunError" && len(call.Call.Args) == 3:
 						posArg = call.Call.Args[2]
 					case funcIs(cal, pErr, "NewErr"):
 						posArg = call.Call.Args[1]
@@ -226,7 +226,7 @@ func init() {
 			f := rt.Func("SliceIndices")
 			for _, st := range []sval{symv("step")} {
 				cfg := &specCfg{Call: func(fn *ssa.Function, call *ssa.Call, nth int, args []sval) (sval, bool) {
-					if cal := call.Call.StaticCallee(); cal != nil && cal.Name() == "clampSliceBound" {
+					if cal := call.Call.StaticCallee(); cal != nil && fnName(cal) == "clampSliceBound" {
 						return symv(fmt.Sprintf("clamp(%s, %s, %s, %s)", args[0], args[1], args[2], args[3])), true
 					}
 					return stdErrCall(fn, call, nth, args)
